@@ -196,11 +196,35 @@ def profile_dates(pr, horizon):
         base += pr["period"]
 
 
+def noop_priority_update(w):
+    """An Exec::update_priority whose value is the priority the exec already has (script order)."""
+    for a in w["actors"]:
+        for it in a["script"]:
+            if it[0] != "G":
+                continue
+            cur = {x[1]: x[5] for x in it[1] if x[0] == "E"}
+            for c in it[2]:
+                if c[0] == "U":
+                    if cur.get(c[1]) == c[3]:
+                        return True
+                    cur[c[1]] = c[3]
+    return False
+
+
+def resume_of_running(w):
+    """An actor that suspends / resumes its own activities is itself suspended / resumed by another one: the second resume() reaches an
+    action that is already running."""
+    zs = {a["name"] for a in w["actors"] for it in a["script"] if it[0] == "G" and any(c[0] == "Z" for c in it[2])}
+    return any(it[0] == "AZ" and it[1] in zs for a in w["actors"] for it in a["script"])
+
+
 def exposure(w, cfg, ref):
     """Names of the open known findings this (workload, configuration) is exposed to (conservative over-approximation):
     ti-suspend / ti-prio / ti-pstate: the workload suspends something / changes a priority / a pstate while running under cpu/optim:TI;
     link-change-in-latency: a bandwidth / latency profile event of a link falls in the latency phase of a comm crossing it;
-    comm-suspend-in-latency: a comm (or an actor owning it) is suspended during the latency phase of the comm.
+    comm-suspend-in-latency: a comm (or an actor owning it) is suspended during the latency phase of the comm (network/optim:Lazy);
+    lazy-noop-priority: Exec::update_priority with the priority the exec already has (cpu/optim:Lazy);
+    lazy-noop-resume: resume() of an action that is already running (Lazy).
     The latency phase of a comm is over-approximated by [start, start + 13.01 * sum of the largest latency of every link of its route]."""
     from verif.gen import optim as gen
     tags = set()
@@ -212,6 +236,10 @@ def exposure(w, cfg, ref):
             tags.add("ti-pstate")
         if "prio" in feats:
             tags.add("ti-prio")
+    if cfg[0] == "Lazy" and noop_priority_update(w):
+        tags.add("lazy-noop-priority")
+    if "Lazy" in cfg and resume_of_running(w):
+        tags.add("lazy-noop-resume")
     links = {l["name"]: l for l in w["platform"]["links"]}
     has_linkprof = any(l.get("bwprof") or l.get("latprof") for l in links.values())
 
